@@ -18,6 +18,64 @@ def boundary_cases(r):
     return out
 
 
+def critical_variants(r, n, emax):
+    """verdict-critical graphs: an accepted graph (connected or not, any externals) in which the weight of one edge of one of its
+    most nearly divergent proper subsets is moved so that this subset's omega becomes +1/16 or -1/16: the verdict then hinges on
+    the table entry of that one subset (its loop number, its spanning flag, the overall degree of divergence)"""
+    out = []
+    for _ in range(n):
+        g = G.gen_accepted(r.fork(), emax=emax, connected=False)
+        tab, dod, L = G.exact_table(g)
+        E = len(g["edges"])
+        if E < 2:
+            continue
+        srt = sorted(range(1, len(tab) - 1), key=lambda gid: tab[gid][2])
+        ids = srt[:4]
+        disc = [gid for gid in srt[:12] if len(G.uf_components(g["edges"], [e for e in range(E) if gid >> e & 1])[0]) > 1]
+        gid = r.choice(disc) if disc and r.chance(0.5) else r.choice(ids)      # half of the time a DISCONNECTED subset decides
+        es = [e for e in range(E) if gid >> e & 1]
+        e = r.choice(es)
+        delta = Fraction(1, 16) * (1 if r.chance(0.5) else -1)
+        # omega(gid) is affine in w_e with slope 1 (non-spanning) or 0 (spanning: w_e cancels against dod) -- try, the oracle decides
+        a, b, m, w = g["edges"][e]
+        w2 = float(Fraction(w) - tab[gid][2] + delta)
+        if not (w2 > 1.0 / 64):
+            continue
+        g2 = dict(g, edges=[ed if k != e else (a, b, m, w2) for k, ed in enumerate(g["edges"])])
+        out.append(G.to_case(g2))
+    return out
+
+
+def search_flip(rep, prof, c, o, tab):
+    """the accepted table holds a wrong omega at some subset: look for a graph on which that costs the verdict -- move one weight
+    so that the TRUE omega of that subset becomes -1/16 and see whether the implementation still accepts"""
+    g = TC.case_graph(c)
+    E = len(g["edges"])
+    wrong = [gid for gid in range(1, len(tab) - 1) if not rel_close(b2f(o["dod_bits"][gid]), float(tab[gid][2]), 1e-9, 1e-12)]
+    for gid in wrong[:4]:
+        for e in range(E):
+            a, b, m, w = g["edges"][e]
+            g1 = dict(g, edges=[ed if k != e else (a, b, m, float(Fraction(w) + 1)) for k, ed in enumerate(g["edges"])])
+            slope = G.exact_table(g1)[0][gid][2] - tab[gid][2]
+            if slope == 0:
+                continue
+            w2 = Fraction(w) + (Fraction(-1, 16) - tab[gid][2]) / slope
+            if w2 <= Fraction(1, 64):
+                continue
+            g2 = dict(g, edges=[ed if k != e else (a, b, m, float(w2)) for k, ed in enumerate(g["edges"])])
+            tab2, _, _ = G.exact_table(g2)
+            div2 = G.divergent_subsets(tab2)
+            if not div2 or any(abs(t[2]) < Fraction(1, 10**9) and t[2] != 0 for t in tab2[1:-1]):
+                continue
+            c2 = G.to_case(g2)
+            o2 = harness("table", dict(cases=[c2]), profile=prof, timeout=120)["results"][0]
+            if TC.impl_outcome(o2) == "ok":
+                rep.violation("property", "[%s] searched from a wrong table entry (subset %d): this graph is accepted although subset %d has omega = %s <= 0 (exact)" % (
+                    prof, gid, div2[0], tab2[div2[0]][2]), case=c2, failing_input=True, what="a divergent graph is accepted")
+                return True
+    return False
+
+
 def run(rep, rng, tier, replay=None):
     cases = []
     if replay and replay.get("chosen", {}).get("case"):
@@ -25,8 +83,10 @@ def run(rep, rng, tier, replay=None):
     n = 200 if tier == "quick" else 2000
     cases += boundary_cases(rng)
     cases += TC.gen_mixed_cases(rng, n, 6 if tier == "quick" else 8, accepted_share=0.45)
+    cases += critical_variants(rng, 160 if tier == "quick" else 1000, 6 if tier == "quick" else 7)
     profiles = ["debug"] if tier == "quick" else ["debug", "release"]
     outcomes = {}
+    nsearch = 0
     for prof in profiles:
         impl, model = TC.run_tables("C05-" + prof, cases, profile=prof, batch=40)
         # determinism: the same graphs once more, in a separate process (different ahash seeds)
@@ -56,6 +116,10 @@ def run(rep, rng, tier, replay=None):
             elif io == "ok" and div:
                 rep.violation("property", "[%s] accepted, but subset %d has omega = %s <= 0 (exact)" % (prof, div[0], tab[div[0]][2]), case=c, failing_input=True)
             elif io == "ok":
+                if nsearch < 8 and any(not rel_close(b2f(o["dod_bits"][gid]), float(tab[gid][2]), 1e-9, 1e-12) for gid in range(1, len(tab) - 1)):
+                    nsearch += 1
+                    rep.violation("correspondence", "[%s] verdict agrees but the accepted table holds a wrong omega; searching for a graph on which the verdict flips" % prof, case=c)
+                    search_flip(rep, prof, c, o, tab)
                 js = [b2f(x) for x in o["j_bits"]]
                 if not all(math.isfinite(x) and x > 0 for x in js):
                     rep.violation("property", "[%s] accepted table has a J value that is not finite and positive" % prof, case=c, failing_input=True)
@@ -67,7 +131,7 @@ def run(rep, rng, tier, replay=None):
             o = harness("table", dict(cases=[c64]), timeout=120)["results"][0]
             if "panic" in o:
                 rep.known.append("64 parallel edges (the documented MAX_EDGES) panic in build_sampler: %s" % o["panic"][:80])
-    rep.cov["rule"] = ("45%% accepted graphs, 55%% raw random multigraphs (about half rejected) plus exact boundary cases omega = 0 and +-1/8 for D=1..6; "
+    rep.cov["rule"] = ("45%% accepted graphs, 55%% raw random multigraphs (about half rejected) plus exact boundary cases omega = 0 and +-1/8 for D=1..6, plus verdict-critical variants (one weight of an accepted graph moved so that the omega of one of its most nearly divergent subsets becomes +-1/16); "
                        "outcome compared with the Coq model and with an exact rational subset scan; each graph built twice in separate processes and compared byte for byte; "
                        "profiles: %s. non-trivial = E>=2; subsets with |omega|<1e-9 (exact) are skipped as the property says" % "+".join(profiles))
     rep.cov["outcome_histogram"] = outcomes
